@@ -33,6 +33,8 @@ func c09Gen(r *rand.Rand, tier string) []spec.Case {
 		add("mux", "accept-at-expiry:"+s)
 		add("mux", "staggered-dials-then-accept:"+s)
 		add("mux", "matched-then-dial-again:"+s)
+		add("mux", "matched-then-dial-again-held:"+s)
+		add("mux", "matched-then-pair-again-held:"+s)
 		add("grpc", "staggered-dials-then-accept:"+s)
 		add("grpc", "accept-twice:"+s)
 		add("grpc", "dial-timeout-then-accept-twice:"+s)
@@ -53,7 +55,7 @@ func c09Gen(r *rand.Rand, tier string) []spec.Case {
 		k := pick(r, []string{"mux", "mux", "grpc", "grpcmux"})
 		pool := append([]string(nil), common...)
 		if k == "mux" {
-			pool = append(pool, "accept-at-expiry", "dial-timeout-then-accept", "staggered-dials-then-accept", "matched-then-dial-again")
+			pool = append(pool, "accept-at-expiry", "dial-timeout-then-accept", "staggered-dials-then-accept", "matched-then-dial-again", "matched-then-dial-again-held", "matched-then-pair-again-held")
 		}
 		if k == "grpcmux" && tier == "thorough" {
 			pool = append(pool, "late-accept-during-other-knock")
@@ -151,9 +153,11 @@ func c09Judge(c spec.Case, evs []spec.Event, d *Death) CaseResult {
 			if len(s.Errs) > 0 && s.Errs[0] == "dial: " {
 				viol("unmatched-dial-succeeded", fmt.Sprintf("step %s: a dial with no accept succeeded", s.Step))
 			}
-		case "matched-then-dial-again":
+		case "matched-then-dial-again", "matched-then-dial-again-held", "matched-then-pair-again-held":
 			for _, e := range s.Errs {
 				switch {
+				case (strings.HasPrefix(e, "accept2: ") || strings.HasPrefix(e, "dial3: ")) && !strings.HasSuffix(e, ": "):
+					viol("reused-id-pair-failed", fmt.Sprintf("step %s: an id was accepted and dialled again right after a completed pair on it, and did not connect: %s", s.Step, e))
 				case (strings.HasPrefix(e, "accept: ") || strings.HasPrefix(e, "dial1: ")) && !strings.HasSuffix(e, ": "):
 					viol("matched-pair-failed", fmt.Sprintf("step %s: an accept that was waiting and its dial did not connect: %s", s.Step, e))
 				case e == "dial2: ":
@@ -237,7 +241,7 @@ func c09Finish(r *Run) {
 	r.Extra["hook_hits"] = hooks
 	r.raceSummary("C09")
 	if len(r.Cases) > 10 {
-		for _, need := range []string{"mux.timeoutWait.fired", "mux.accept.gotConn", "grpcbroker.knock.sent", "grpcbroker.run.recv"} {
+		for _, need := range []string{"mux.timeoutWait.fired", "mux.timeoutWait.accepted", "mux.accept.gotConn", "grpcbroker.knock.sent", "grpcbroker.run.recv"} {
 			if hooks[need] == 0 {
 				r.Inconcl = append(r.Inconcl, "hook point never hit: "+need)
 			}
@@ -253,7 +257,7 @@ func init() {
 		ID: "C09", Level: "exploration", Race: true, TestName: "TestC09",
 		Gen: c09Gen, Batch: 64, Children: 4, PerCase: 3 * time.Second, Base: 240 * time.Second,
 		Judge: c09Judge, Finish: c09Finish,
-		Rule: "cases = histories over {dial-noaccept, accept-nodial, dial-twice (same id), staggered-dials-then-accept (second dial half-way through the first one's window, then an unmatched accept after the first expired), dial-timeout-then-accept (late accept), accept-timeout-then-dial (late dial), accept-at-expiry (Accept lined up with the expiry of a parked connection through hook points), raw-truncated-headers (kind muxraw: a hand-rolled yamux peer of an in-process RPCServer opens n streams and closes each after 0..3 header bytes, with genuine Dispense+dial pairs in between and after)} x acting side, on MuxBroker, GRPCBroker and multiplexed GRPCBroker, each on its own in-process connection pair (both ends real go-plugin code), followed by a matched pair on a fresh id in each direction and a close; every single step per kind and side plus random histories of length 2-4. Class = kind + multiset of steps",
+		Rule: "cases = histories over {dial-noaccept, accept-nodial, dial-twice (same id), staggered-dials-then-accept (second dial half-way through the first one's window, then an unmatched accept after the first expired), dial-timeout-then-accept (late accept), accept-timeout-then-dial (late dial), accept-at-expiry (Accept lined up with the expiry of a parked connection through hook points), matched-then-dial-again-held / matched-then-pair-again-held (the id of a completed pair is dialled, or accepted and dialled, again while the goroutine that cleans up after that pair is held at hook point mux.timeoutWait.accepted), raw-truncated-headers (kind muxraw: a hand-rolled yamux peer of an in-process RPCServer opens n streams and closes each after 0..3 header bytes, with genuine Dispense+dial pairs in between and after)} x acting side, on MuxBroker, GRPCBroker and multiplexed GRPCBroker, each on its own in-process connection pair (both ends real go-plugin code), followed by a matched pair on a fresh id in each direction and a close; every single step per kind and side plus random histories of length 2-4. Class = kind + multiset of steps",
 		Assumptions: []string{
 			"nominal bound 5 s; a call counts as hung only after 40 s (2 x H, H = 20 s) for steps and 20 s for fresh pairs",
 			"for GRPCBroker an unmatched accept is an AcceptAndServe that is stopped through its server after 300 ms (Accept itself returns a listener at once)",
